@@ -904,6 +904,53 @@ def build(ir, order_rng=None):
     return schema
 
 
+def share_definition_nodes(sdl_a, old, new):
+    """The new schema as one *derived* from the old one by a schema visitor: every type, field, argument, input
+    field and enum value that kept its name still carries the definition node of the old schema (that is what
+    SchemaVisitor-based transforms do while they edit an element). Nodes say where an element came from, not
+    what it is now."""
+    from py_gql.lang import parse
+    from py_gql.schema import EnumType, InputObjectType, InterfaceType, ObjectType
+
+    doc = parse(sdl_a, allow_type_system=True)
+    n = 0
+    for d in doc.definitions:
+        name = getattr(getattr(d, "name", None), "value", None)
+        if name is None or not type(d).__name__.endswith("TypeDefinition"):
+            continue
+        for schema in (old, new):
+            t = schema.types.get(name)
+            if t is None:
+                continue
+            if hasattr(t, "nodes"):
+                t.nodes = [d]
+            if isinstance(t, (ObjectType, InterfaceType)) and hasattr(d, "fields"):
+                fmap = dict((f.name.value, f) for f in d.fields)
+                for f in t.fields:
+                    fn = fmap.get(f.name)
+                    if fn is None or not hasattr(fn, "arguments"):
+                        continue
+                    f.node = fn
+                    n += 1
+                    amap = dict((a.name.value, a) for a in fn.arguments)
+                    for a in f.arguments:
+                        if a.name in amap:
+                            a.node = amap[a.name]
+            elif isinstance(t, InputObjectType) and hasattr(d, "fields"):
+                fmap = dict((f.name.value, f) for f in d.fields)
+                for f in t.fields:
+                    if f.name in fmap:
+                        f.node = fmap[f.name]
+                        n += 1
+            elif isinstance(t, EnumType) and hasattr(d, "values"):
+                vmap = dict((v.name.value, v) for v in d.values)
+                for v in t.values:
+                    if v.name in vmap:
+                        v.node = vmap[v.name]
+                        n += 1
+    return n
+
+
 def changes_of(old, new):
     from py_gql.schema.differ import diff_schema
 
@@ -980,6 +1027,15 @@ def run(ctx):
         except (SchemaError, ValueError, AssertionError, RecursionError) as e:
             ctx.count("edited_schema_invalid")
             continue
+        if rng.random() < 0.3:
+            # the edited schema as a derivation of the old one that kept the definition nodes
+            try:
+                if share_definition_nodes(sdl_a, old, new):
+                    ctx.count("pairs_sharing_definition_nodes")
+                    witness["new_schema_keeps_definition_nodes_of_old"] = True
+            except Exception as e:
+                ctx.mark_inconclusive("harness could not attach definition nodes: %r" % (e,))
+                continue
         ctx.evaluated()
         ctx.count("pairs")
         for e in applied:
